@@ -4,6 +4,7 @@ package main
 
 import (
 	"fmt"
+	"strings"
 	"go/types"
 
 	"golang.org/x/tools/go/ssa"
@@ -19,7 +20,9 @@ func (tr *Tr) newAct(fn *ssa.Function, parent *Act) *Act {
 	}
 	tr.fresh++
 	a.prefix = fmt.Sprintf("a%d_", tr.fresh)
-	a.contract = tr.eng.contracts.forFunc(fn)
+	if !tr.noContracts {
+		a.contract = tr.eng.contracts.forFunc(fn)
+	}
 	return a
 }
 
@@ -113,6 +116,12 @@ func (tr *Tr) mergeStates(sts []*State) *State {
 	}
 	out := &State{heap: map[string]*HeapV{}, defers: map[*ssa.Defer]Term{}, owned: map[string]ownedCell{}}
 	out.prov = &prov{kind: "join", preds: append([]*State{}, sts...)}
+	out.esc = map[string]escRec{}
+	for _, s := range sts {
+		for k, v := range s.esc {
+			out.esc[k] = v
+		}
+	}
 	for k, v := range sts[0].owned {
 		same := true
 		for _, s := range sts[1:] {
@@ -361,6 +370,7 @@ func (a *Act) blockIn(b *ssa.BasicBlock) *State {
 		}
 		a.assumeWF(hs, phi.Type(), c, 1)
 	}
+	a.prescanEscapes(hs, li)
 	mods, all := a.loopMods(li)
 	preHavoc := hs.copy()
 	hs.prov = &prov{kind: "havoc", prev: preHavoc, all: all, mods: mods, hint: "loop",
@@ -374,6 +384,9 @@ func (a *Act) blockIn(b *ssa.BasicBlock) *State {
 			continue
 		}
 		if !all && !mods[name] {
+			continue
+		}
+		if strings.HasPrefix(name, "ghost:lock") && !mods[name] {
 			continue
 		}
 		delete(hs.heap, name)
@@ -645,4 +658,104 @@ func (a *Act) obligeNamed(st *State, kind, what string, goal Term) *Obligation {
 	o := &Obligation{Name: fmt.Sprintf("%s#%d", base, a.tr.oblCount[base]), Kind: kind, Fn: fname, Pos: loc, Src: what, Guard: st.reach, Goal: goal}
 	a.tr.obls = append(a.tr.obls, o)
 	return o
+}
+
+// prescanEscapes: a container defined before the loop and passed, inside the loop, to a call
+// that may retain it has escaped for every iteration after the first; the loop head stands for
+// an arbitrary iteration, so it is treated as escaped there.
+func (a *Act) prescanEscapes(st *State, li *loopInfo) {
+	tr := a.tr
+	if !tr.frameMode {
+		return
+	}
+	for _, b := range sortedBlocks(li.blocks) {
+		for _, in := range b.Instrs {
+			var c *ssa.CallCommon
+			switch x := in.(type) {
+			case *ssa.Call:
+				c = x.Common()
+			case *ssa.Defer:
+				c = &x.Call
+			case *ssa.Go:
+				c = &x.Call
+			}
+			if c == nil || !a.callRetainsConservative(c) {
+				continue
+			}
+			for _, arg := range c.Args {
+				if !a.dominatesHeader(arg, li.header) {
+					continue
+				}
+				if _, isConst := arg.(*ssa.Const); isConst {
+					continue
+				}
+				if _, ok := a.vals[arg]; !ok {
+					continue
+				}
+				tr.markEscaped(st, arg.Type(), a.val(arg))
+			}
+		}
+	}
+}
+
+// callRetains: may the callee keep a reference to its arguments? (not builtins, stubs, pure
+// contracts or callees that are inlined and therefore seen)
+func (a *Act) callRetains(c *ssa.CallCommon) bool {
+	tr := a.tr
+	if _, ok := c.Value.(*ssa.Builtin); ok {
+		return false
+	}
+	var callee *ssa.Function
+	if c.IsInvoke() {
+		callee = tr.eng.resolveInvoke(c)
+		if callee == nil {
+			key := fmt.Sprintf("(%s).%s", typeStr(c.Value.Type()), c.Method.Name())
+			return tr.eng.stubFor(key) == nil
+		}
+	} else if f := c.StaticCallee(); f != nil {
+		callee = f
+	} else if cl := a.findClosure(c.Value); cl != nil {
+		return false // inlined
+	} else {
+		return true
+	}
+	if tr.eng.stubFor(callee.String()) != nil {
+		return false
+	}
+	if fc := tr.eng.contracts.forFunc(callee); fc != nil && fc.modular() && !tr.noContracts {
+		return !fc.pure
+	}
+	inMod := callee.Pkg != nil && strings.HasPrefix(callee.Pkg.Pkg.Path(), modulePath) || callee.Parent() != nil || isInstantiation(callee)
+	if !inMod {
+		return false // external library calls do not retain lisp containers (TB-STUB)
+	}
+	// module function without contract: inlined when small (then we see what it does), else unknown
+	if len(callee.Blocks) > 0 && !a.onStack(callee) && a.depth < maxInlineDepth && (len(callee.Blocks) <= 3 || (len(callee.Blocks) <= maxInlineBlocks && tr.inlineBudget >= len(callee.Blocks))) {
+		return false
+	}
+	return true
+}
+
+// callRetainsConservative: like callRetains, but a small module callee that would be inlined
+// counts as retaining too (what it does with its argument is only seen later, inside the loop).
+func (a *Act) callRetainsConservative(c *ssa.CallCommon) bool {
+	if a.callRetains(c) {
+		return true
+	}
+	if _, ok := c.Value.(*ssa.Builtin); ok {
+		return false
+	}
+	callee := c.StaticCallee()
+	if callee == nil || c.IsInvoke() {
+		return false
+	}
+	tr := a.tr
+	if tr.eng.stubFor(callee.String()) != nil {
+		return false
+	}
+	if fc := tr.eng.contracts.forFunc(callee); fc != nil && fc.pure {
+		return false
+	}
+	inMod := callee.Pkg != nil && strings.HasPrefix(callee.Pkg.Pkg.Path(), modulePath) || callee.Parent() != nil || isInstantiation(callee)
+	return inMod && callee.Parent() == nil
 }
